@@ -61,11 +61,23 @@ def run(tier, seed):
     nworlds = 90 if tier == "quick" else 900
     obs = []
     hidden_worlds = 0
+    new_source_worlds = 0
     with vlib.Scratch() as sc:
         for i in range(nworlds):
             src_spec, dst_spec, d, n, t = gen_world(r)
             base = os.path.join(sc.dir, "w%d" % i)
             src, dst = os.path.join(base, "src"), os.path.join(base, "dst")
+            if i % 5 == 1:
+                # (seed C07-5) the mistaken-source case proper: the source does not only lack the destination's entries, it brings entries
+                # of its own (new files, a new directory).  They are no part of "the destination's entries": the share stays d/n, and the
+                # threshold sits just below it, so the run must be refused however many creations are planned
+                m = d + r.randrange(1, d + 4)
+                src_spec = list(src_spec) + [{"p": "newdir", "k": "d", "mt": 400}]
+                for q in range(m):
+                    src_spec.append({"p": ("newdir/" if q % 3 == 2 else "") + "new%d.txt" % q, "k": "f", "data": ("rand", 700 + q, 7), "mt": 401 + q})
+                if d * 100 > n:
+                    t = max(0, (100 * d) // n - 1 - (1 if (100 * d) % n == 0 else 0))
+                new_source_worlds += 1
             world.mk_tree(src, src_spec)
             world.mk_tree(dst, dst_spec)
             if not src_spec:
@@ -113,6 +125,7 @@ def run(tier, seed):
     res.cov["distinct_nontrivial"] = len(nontriv)
     res.cov["worlds"] = len(obs)
     res.cov["worlds_with_scanner_hidden_destination_entries"] = hidden_worlds
+    res.cov["worlds_whose_source_brings_new_entries"] = new_source_worlds
     res.cov["refusals_observed"] = sum(1 for o in obs if o["refused"])
     res.cov["model_sweep_triples"] = len(sweep)
     res.cov["model_sweep_float_differs_from_exact"] = float_vs_exact
